@@ -57,7 +57,8 @@ class C10(Property):
                        "probe.setitem-dropped-later-duplicates",
                        "probe.pop-emptied-a-key",
                        "probe.insert-negative-multi",
-                       "probe.nested-mutated"]
+                       "probe.nested-mutated",
+                       "probe.sparse-accessor-checks"]
     machine_cls = Machine
     extra_ops = ()
 
@@ -89,7 +90,8 @@ class C10(Property):
 
     def run(self, rng, index, tier):
         out = RunOut()
-        m = self.machine_cls(2)
+        period = rng.choice([1, 1, 1, 2, 3, 5, 8, 1000])
+        m = self.machine_cls(2, period)
         gen = self.make_gen(rng, m)
         nops = rng.randint(1, self.MAXOPS)
         ops = []
@@ -112,10 +114,14 @@ class C10(Property):
                 progressed = True
             if m.problems:
                 break
+        if not m.problems and period > 1:
+            m.check_all()       # full comparison at the end of the history
+        if period > 1:
+            out.inc("probe.sparse-accessor-checks")
         if m.problems:
             cls, detail, opi = m.problems[0]
             out.violations.append(Violation(
-                cls, detail, {"ops": ops},
+                cls, detail, {"ops": ops, "check_period": period},
                 raw_sig="%s|%s" % (cls, op_brief(ops[opi]) if 0 <= opi < len(
                     ops) else "?")))
             out.inc("violations")
@@ -129,18 +135,25 @@ class C10(Property):
         pass
 
     def execute(self, case):
-        m = run_ops(case["ops"], 2, self.machine_cls)
+        period = case.get("check_period", 1)
+        m = run_ops(case["ops"], 2, self.machine_cls, period)
         vs = []
         if m.problems:
             cls, detail, opi = m.problems[0]
             ops = case["ops"]
-            vs.append(Violation(cls, detail, {"ops": ops[:opi + 1]},
+            opi = min(opi, len(ops) - 1)
+            vs.append(Violation(cls, detail, {"ops": ops[:opi + 1] if
+                                              period == 1 else ops,
+                                              "check_period": period},
                                 raw_sig="%s|%s" % (cls, op_brief(ops[opi]))))
         return vs
 
     def reductions(self, case):
+        period = case.get("check_period", 1)
+        if period != 1:
+            yield {"ops": case["ops"], "check_period": 1}
         for ops in history_reductions(case["ops"]):
-            yield {"ops": ops}
+            yield {"ops": ops, "check_period": period}
 
     def signature(self, case, v):
         ops = case["ops"]
